@@ -170,6 +170,12 @@ func checkPretty(t *fw.T, src string, prog *ast.Program, wantS string, cfgs []Cf
 		ac, ok := acornTrees(t, acornTexts, false)
 		if ok {
 			for i := range ac {
+				if strings.Contains(ac[i].Err, "call stack size") {
+					// the reference parser (or its tree printer) ran out of stack on a very deep text: that is a limit of the
+					// oracle, not a reading of the text
+					t.Inconclusive("reference parser exceeded its stack on the formatted output (oracle limit)", clip(acornTexts[i], 120))
+					continue
+				}
 				t.Count("formatted_outputs_confirmed_by_acorn", 1)
 				if ac[i].Err != "" || ac[i].S != wantS {
 					t.Violate("javascript-reads-formatted-output-differently", optKey(acornCfgs[i])+"/"+diffKey(wantS, ac[i].S)+" "+acornKey(ac[i].Err),
@@ -253,7 +259,7 @@ func checkC06Prog(t *fw.T, r *rand.Rand, prog *gen.Node) {
 	}
 	all := prettyCfgs()
 	cfgs := all
-	if !t.Thorough() {
+	if !t.Thorough() || limitCfgs {
 		// 6 option sets: defaults, tab/nosemi, and the semi/nosemi pair of two seed-chosen indents
 		a, b := all[r.IntN(10)], all[r.IntN(10)]
 		a.NoSemi, b.NoSemi = false, false
